@@ -6,7 +6,8 @@
     The model follows the code AFTER the three repairs made for C03/C10:
       - [_can_paste] rejects an axis scale exactly [stol] away from the integer;
       - [compute_reproject_roi] treats [align=0] as "no alignment";
-      - [roi_boundary] samples in float64 (so integer pixel coordinates are exact). *)
+      - [roi_boundary] samples in float64 (so integer pixel coordinates are exact);
+      - [_relative_rois] aligns the source region only when the un-aligned padded envelope meets the image. *)
 From Coq Require Import ZArith QArith Qround Qabs List Bool Lia.
 From OG Require Import Base.Result Model.Roi.
 Import ListNotations.
@@ -204,7 +205,14 @@ Definition ptrans : Type := Q * Q -> option (Q * Q).
 Definition relative_rois (back fwd : ptrans) (src_shape dst_shape : shape2)
            (n : nat) (padding : Z) (align : option Z) : roi2 * roi2 :=
   let pts := map back (boundary_pts ((0%Z, fst dst_shape), (0%Z, snd dst_shape)) n) in
-  let roi_s := roi_from_points pts (fst src_shape) (snd src_shape) padding align in
+  (* without alignment first; aligned only when the padded envelope meets the image (repair of the
+     "alignment re-enters a disjoint image" defect) *)
+  let roi_0 := roi_from_points pts (fst src_shape) (snd src_shape) padding None in
+  let roi_s := match align with
+               | Some _ => if roi_empty roi_0 then roi_0
+                           else roi_from_points pts (fst src_shape) (snd src_shape) padding align
+               | None => roi_0
+               end in
   if roi_empty roi_s then (roi_s, ((0%Z, 0%Z), (0%Z, 0%Z)))
   else
     let pts2 := map fwd (boundary_pts roi_s n) in
